@@ -6,4 +6,4 @@ import (
 	"verif/internal/harness"
 )
 
-func TestProps(t *testing.T) { harness.Main(t, "C05", Blob, Object, Policy, List, Util, Conc) }
+func TestProps(t *testing.T) { harness.Main(t, "C05", Blob, Object, Policy, List, Util, Conc, Client) }
